@@ -242,6 +242,9 @@ def generate(rng, seed, size):
                 out.append(l + "\n")
         out.append("#[derive(EnumIter, Debug, PartialEq)]\n")
         if not robust:
+            for l in noise.extra_derives("c05-%d-%s" % (seed, e["name"]), ["strum::EnumCount", "strum::AsRefStr", "strum::EnumMessage",
+                                                                           "strum::EnumProperty", "strum::VariantNames", "strum::IntoStaticStr"]):
+                out.append(l + "\n")
             for l in noise.enum_strum_noise(rng):
                 out.append(l + "\n")
         out.append("pub enum %s%s {\n" % (e["name"], decl))
